@@ -147,8 +147,17 @@ func lower(t *rt.Thread, c *rt.GoCont) (rt.Cont, error) {
 		return nil, err
 	}
 	t.RequireBytes(len(s))
-	s = strings.ToLower(string(s))
-	return c.PushingNext1(t.Runtime, rt.StringValue(s)), nil
+	// Strings are sequences of bytes: only the ASCII letters change case, byte
+	// by byte (strings.ToLower would decode s as UTF-8).
+	b := make([]byte, len(s))
+	for i := 0; i < len(s); i++ {
+		x := s[i]
+		if 'A' <= x && x <= 'Z' {
+			x += 'a' - 'A'
+		}
+		b[i] = x
+	}
+	return c.PushingNext1(t.Runtime, rt.StringValue(string(b))), nil
 }
 
 func upper(t *rt.Thread, c *rt.GoCont) (rt.Cont, error) {
@@ -160,8 +169,16 @@ func upper(t *rt.Thread, c *rt.GoCont) (rt.Cont, error) {
 		return nil, err
 	}
 	t.RequireBytes(len(s))
-	s = strings.ToUpper(string(s))
-	return c.PushingNext1(t.Runtime, rt.StringValue(s)), nil
+	// Byte-wise, like lower.
+	b := make([]byte, len(s))
+	for i := 0; i < len(s); i++ {
+		x := s[i]
+		if 'a' <= x && x <= 'z' {
+			x -= 'a' - 'A'
+		}
+		b[i] = x
+	}
+	return c.PushingNext1(t.Runtime, rt.StringValue(string(b))), nil
 }
 
 func rep(t *rt.Thread, c *rt.GoCont) (rt.Cont, error) {
